@@ -518,9 +518,15 @@ impl Document {
 
             cursor += 1;
 
-            if cursor >= self.tokens.len() - 1 {
+            if cursor >= self.tokens.len() {
                 break;
             }
+        }
+
+        // Close an initialism that runs up to the end of the document.
+        if let Some(start) = initialism_start {
+            let end = self.tokens[cursor - 2].span.end;
+            self.tokens[start].span.end = end;
         }
 
         self.tokens.remove_indices(to_remove);
